@@ -9,7 +9,7 @@ ID = 'C06'
 LEVEL = 'exploration'
 BUDGET = {'quick': 150, 'thorough': 1800}
 CHUNK = 1
-RULE = ('Cases: arbitrary sample-by-k-mer tables (1..12 samples x 1..60 rows, plus a few per run of 3..45 samples x 1500..12000 rows and one of 2..3 samples x 70000 rows; row styles: all bases, near-constant, all 15 '
+RULE = ('Cases: arbitrary sample-by-k-mer tables (1..12 samples x 1..60 rows, plus a few per run of 3..45 samples x 1500..12000 rows one of 2..3 samples x 70000 rows and three of 256..300 samples holding rows of every presence count 1..n; a ninth of the small files has one sample whose k-mers were all weeded away (it stays a sample of the file); row styles: all bases, near-constant, all 15 '
         'codes and gaps, one ambiguous among constant, two alleles with gaps; forced rows: all-equal, all-equal-but-one-gap, '
         'only-ambiguous, one-unambiguous-rest-ambiguous, every presence count 1..n) built through `ska build` and verified '
         'by read-out.  For each table the full grid 4 filters x filter-ambig-as-missing x ambig-mask x no-gap-only-sites is '
@@ -20,7 +20,7 @@ ASSUMPTIONS = ['min-freq is passed as a short decimal string; the oracle uses th
                'tables are constructed through ska build (one record arm+base+arm+N per cell), verified before judging']
 FILTERS = ['no-filter', 'no-const', 'no-ambig', 'no-ambig-or-const']
 REQUIRED = {t: ['filter:' + f for f in FILTERS] + ['rows_kept', 'rows_dropped', 'threshold_boundary_rows',
-                                                   'submultiset_relations_checked', 'float_sensitive_thresholds', 'pretreated_files', 'aligns_to_reused_output_file', 'large_tables', 'tables_over_65536_rows', 'alignments_over_65536_columns']
+                                                   'submultiset_relations_checked', 'float_sensitive_thresholds', 'pretreated_files', 'aligns_to_reused_output_file', 'large_tables', 'tables_over_65536_rows', 'alignments_over_65536_columns', 'tables_of_256+_samples', 'files_with_a_sample_without_kmers']
             for t in ('quick', 'thorough')}
 
 
@@ -63,9 +63,14 @@ def plan(tier, seed, rng, scale):
     for j, nr in enumerate([70000] if tier == 'quick' else [70000, 140000, 70000]):
         # more columns than any block or buffer of the alignment writer (> 65536)
         descs.insert(12 + j, {'ns': rng.choice([2, 3]), 'k': rng.choice([31, 33]), 'seed': rng.getrandbits(32), 'full': False, 'nrows': nr})
+    for j in range(3 if tier == 'quick' else 12):
+        # hundreds of samples (per-row tallies beyond one byte): every presence count 1..n is among the forced rows
+        descs.insert(14 + 6 * j, {'ns': [257, 300, 256][j % 3], 'k': rng.choice([15, 31, 33]), 'seed': rng.getrandbits(32), 'full': False, 'nrows': 3, 'crowd': True})
     for i, d in enumerate(descs):
         d['chk'] = (i % 6 == 0) and not d.get('nrows')
-        if i % 4 == 1 and d['ns'] <= 12 and not d.get('nrows') and (10000 % d['ns'] == 0 or d['ns'] in (3, 6, 7, 9, 11, 12)):
+        if i % 9 == 4 and 2 <= d['ns'] <= 12 and not d.get('nrows'):
+            d['emptysample'] = 1 + i
+        elif i % 4 == 1 and d['ns'] <= 12 and not d.get('nrows') and (10000 % d['ns'] == 0 or d['ns'] in (3, 6, 7, 9, 11, 12)):
             # min-freq giving a weed threshold of exactly one sample (floor(f*n) = 1)
             d['pretreat'] = {1: '1', 2: '0.5', 3: '0.34', 4: '0.25', 5: '0.2', 6: '0.17', 7: '0.15', 8: '0.125', 9: '0.12',
                              10: '0.1', 11: '0.1', 12: '0.09'}[d['ns']]
@@ -142,7 +147,9 @@ def run_case(desc, ctx):
     k, ns = desc['k'], desc['ns']
     rng = random.Random(desc['seed'])
     rows = make_case_table(rng, k, ns, desc.get('nrows'))
-    if desc.get('nrows'):
+    if desc.get('crowd'):
+        res.count('tables_of_256+_samples')
+    elif desc.get('nrows'):
         res.count('large_tables')
         if desc['nrows'] > 65536:
             res.count('tables_over_65536_rows')
@@ -175,6 +182,29 @@ def run_case(desc, ctx):
             rows = rows_t
             if variant == 'rel':
                 res.count('pretreated_files')
+        if desc.get('emptysample'):
+            # a stored sample without any k-mer: its private rows (all it has) are weeded away; it stays a sample of the file and
+            # counts in every threshold and every column
+            es = desc['emptysample'] % ns
+            rows_e = {a: r for a, r in rows.items()}
+            priv = [a for a, r in rows_e.items() if r[es] != '-']
+            keep = {a: r for a, r in rows_e.items() if r[es] == '-'}
+            if not priv or not keep or ns < 2:
+                res.count('emptysample_not_constructible')
+                return res
+            h_ = (k - 1) // 2
+            G.write_fa(ctx.path('priv.fa'), [a[:h_] + 'A' + a[h_:] + 'N' for a in priv])
+            pe = ctx.sh(b, 'weed', ctx.path('t.skf'), ctx.path('priv.fa'), '--min-freq', '0')
+            try:
+                hdr_e, T_e = G.nk(ctx, ctx.path('t.skf'), binary=b)
+            except (G.NkFailed, ValueError):
+                T_e, hdr_e = None, {}
+            if pe.returncode != 0 or T_e != keep or hdr_e.get('names') != ['s%d' % i for i in range(ns)]:
+                res.count('emptysample_weed_not_as_modelled(C13)')
+                return res
+            rows = keep
+            if variant == 'rel':
+                res.count('files_with_a_sample_without_kmers')
         names_exp = ['s%d' % i for i in range(ns)]
         got_by_setting = {}
         settings = settings_for(rng, ns, desc['full'] and variant == 'rel', desc.get('mf'))
